@@ -121,6 +121,8 @@ pub enum TtcLayout {
     Interleaved,
     /// header | tables | dir 0 | dir 1 | ...
     TablesFirst,
+    /// header | dir n-1 | ... | dir 1 | dir 0 | tables  (the header's offsets are not ascending in member order)
+    DirsReversed,
 }
 
 /// TrueType collection: `members[i]` lists indices into `pool`; shared pool entries are stored once.
@@ -162,6 +164,16 @@ pub fn build_ttc_layout(version: u32, flavors: &[u32], pool: &[(u32, Vec<u8>)], 
                     tab_offsets[i] = pos;
                     pos += pad(t.1.len());
                 }
+            }
+        }
+        TtcLayout::DirsReversed => {
+            for (k, m) in members.iter().enumerate().rev() {
+                dir_offsets[k] = pos;
+                pos += 12 + 16 * m.len();
+            }
+            for (i, t) in pool.iter().enumerate() {
+                tab_offsets[i] = pos;
+                pos += pad(t.1.len());
             }
         }
         TtcLayout::TablesFirst => {
